@@ -1,12 +1,12 @@
 (** Executable model of socket/http.c: the reply parser over its ring buffer ([h_buf], a checked
     array whose length is recv_buf_length), buffer growth (a fresh g_malloc'ed block, content linearised,
     the rest = G), the assertions of assert_ring_buffer_valid (a violated one is a Fault), body skipping,
-    the hand-over of bytes that followed the reply, and the pass-through once connected.
+    the hand-over of bytes that followed the reply (what does not fit the caller's buffer stays in the ring and
+    is handed out by the next calls, before the base socket is read again), and the pass-through once connected.
+    [cap] = size of the caller's receive buffer (one message, one buffer), a parameter of every call.
     Instrumentation (not part of the code's behaviour):
       - the Content-Length digit loop reports whether it evaluated GET_BYTE at or past recv_buf_fill
         ([PMark 1]); HttpProofs.v shows that this never happens;
-      - [PMark 3]: more bytes followed the reply in the same read than the caller's buffer holds; the
-        excess stays in the ring for good (the connected fast path never looks at the ring again).
     No proofs in this file. *)
 From Coq Require Import ZArith List Bool.
 From Nice Require Import Stream.StreamBase Stream.TcpQueueModel Stream.PsslModel.
@@ -176,38 +176,43 @@ Definition http_error (s : hst) : prog hst :=
            h_pos := h_pos s; h_fill := h_fill s; h_cl := h_cl s |} (-1).
 Definition mark_if {S} (b : bool) (n : Z) (p : prog S) : prog S := if b then PMark n p else p.
 
-(** memcpy_ring_buffer_to_input_messages for one message with one buffer of UPCAP bytes (message->length =
-    bytes copied) + flush of the send queue + return *)
-Definition http_handover (s : hst) : prog hst :=
+(** memcpy_ring_buffer_to_input_messages for one message with one buffer of [cap] bytes: pops up to [cap]
+    bytes off the ring; result (bytes copied = message->length, recv_buf_pos, recv_buf_fill afterwards) *)
+Definition ring_pop (cap : Z) (s : hst) : option (list Z * Z * Z) :=
   let L := lenZ (h_buf s) in
-  let fin (pos' fill' : Z) (data : list Z) :=
-    let s' := {| h_state := HT_CONNECTED; h_base := h_base s; h_queue := []; h_buf := h_buf s;
-                 h_pos := pos'; h_fill := fill'; h_cl := h_cl s |} in
-    mark_if (0 <? fill') 3 (flush_queue (h_queue s) (PUp data (-1) (PDone s' 1))) in
+  if L <? h_pos s + h_fill s then
+    let len1 := Z.min (L - h_pos s) cap in
+    match mreadn (h_buf s) (h_pos s) len1 with
+    | None => None
+    | Some d1 =>
+      let len2 := Z.min (h_fill s - len1) (cap - len1) in
+      match mreadn (h_buf s) 0 len2 with
+      | None => None
+      | Some d2 => let c := len1 + len2 in Some (d1 ++ d2, (h_pos s + c) mod L, h_fill s - c)
+      end
+    end
+  else
+    let len := Z.min (h_fill s) cap in
+    match mreadn (h_buf s) (h_pos s) len with
+    | None => None
+    | Some d1 => Some (d1, (h_pos s + len) mod L, h_fill s - len)
+    end.
+
+(** case HTTP_STATE_CONNECTED of the parser: hand over what followed the reply (as much as fits the caller's
+    buffer; the rest stays in the ring and is handed out by the following calls) + flush of the send queue *)
+Definition http_handover (cap : Z) (s : hst) : prog hst :=
+  let conn (pos' fill' : Z) :=
+    {| h_state := HT_CONNECTED; h_base := h_base s; h_queue := []; h_buf := h_buf s;
+       h_pos := pos'; h_fill := fill'; h_cl := h_cl s |} in
   if 0 <? h_fill s then
-    (if L <? h_pos s + h_fill s then
-       let len1 := Z.min (L - h_pos s) UPCAP in
-       match mreadn (h_buf s) (h_pos s) len1 with
-       | None => PFault
-       | Some d1 =>
-         let len2 := Z.min (h_fill s - len1) (UPCAP - len1) in
-         match mreadn (h_buf s) 0 len2 with
-         | None => PFault
-         | Some d2 => let c := len1 + len2 in fin ((h_pos s + c) mod L) (h_fill s - c) (d1 ++ d2)
-         end
-       end
-     else
-       let len := Z.min (h_fill s) UPCAP in
-       match mreadn (h_buf s) (h_pos s) len with
-       | None => PFault
-       | Some d1 => fin ((h_pos s + len) mod L) (h_fill s - len) d1
-       end)
-  else flush_queue (h_queue s)
-         (PDone {| h_state := HT_CONNECTED; h_base := h_base s; h_queue := []; h_buf := h_buf s;
-                   h_pos := h_pos s; h_fill := h_fill s; h_cl := h_cl s |} 0).
+    match ring_pop cap s with
+    | None => PFault
+    | Some (data, pos', fill') => flush_queue (h_queue s) (PUp data (-1) (PDone (conn pos' fill') 1))
+    end
+  else flush_queue (h_queue s) (PDone (conn (h_pos s) (h_fill s)) 0).
 
 (** the `retry:` loop *)
-Fixpoint http_parse (fuel : nat) (s : hst) : prog hst :=
+Fixpoint http_parse (cap : Z) (fuel : nat) (s : hst) : prog hst :=
   match fuel with
   | O => PFault
   | Datatypes.S f =>
@@ -215,7 +220,7 @@ Fixpoint http_parse (fuel : nat) (s : hst) : prog hst :=
     let st := h_state s in
     if st =? HT_INIT then
       match parse_init (h_buf s) L (h_pos s) (h_fill s) with
-      | PrOk n => http_parse f (with_ring s HT_HEADERS ((h_pos s + n) mod L) (h_fill s - n) 0)
+      | PrOk n => http_parse cap f (with_ring s HT_HEADERS ((h_pos s + n) mod L) (h_fill s - n) 0)
       | PrNeed => PDone s 0
       | PrErr => http_error s
       | PrFault => PFault
@@ -225,18 +230,18 @@ Fixpoint http_parse (fuel : nat) (s : hst) : prog hst :=
       | (r, cl', stale) =>
         mark_if stale 1
         match r with
-        | PrOk n => http_parse f (with_ring s (if n =? 2 then HT_BODY else HT_HEADERS) ((h_pos s + n) mod L) (h_fill s - n) cl')
+        | PrOk n => http_parse cap f (with_ring s (if n =? 2 then HT_BODY else HT_HEADERS) ((h_pos s + n) mod L) (h_fill s - n) cl')
         | PrNeed => PDone (with_ring s HT_HEADERS (h_pos s) (h_fill s) cl') 0
         | PrErr => http_error (with_ring s HT_HEADERS (h_pos s) (h_fill s) cl')
         | PrFault => PFault
         end
       end
     else if st =? HT_BODY then
-      if h_cl s =? 0 then http_parse f (with_ring s HT_CONNECTED (h_pos s) (h_fill s) (h_cl s))
+      if h_cl s =? 0 then http_parse cap f (with_ring s HT_CONNECTED (h_pos s) (h_fill s) (h_cl s))
       else if h_fill s =? 0 then PDone s 0
       else let c := Z.min (h_cl s) (h_fill s) in
-           http_parse f (with_ring s HT_BODY ((h_pos s + c) mod L) (h_fill s - c) (h_cl s - c))
-    else if st =? HT_CONNECTED then http_handover s
+           http_parse cap f (with_ring s HT_BODY ((h_pos s + c) mod L) (h_fill s - c) (h_cl s - c))
+    else if st =? HT_CONNECTED then http_handover cap s
     else http_error s
   end.
 
@@ -258,8 +263,20 @@ Definition http_grow (G : Z) (s : hst) : option (list Z * Z) :=
     else Some (repZ G (Z.to_nat L), 0)
   else Some (h_buf s, h_pos s).
 
-Definition http_body (G : Z) (s : hst) : prog hst :=
-  if h_state s =? HT_CONNECTED then (if h_base s then passthrough s else PDone s (-1))
+(** pass-through read of the caller's message (one buffer of [cap] bytes) *)
+Definition passthrough_cap {S} (cap : Z) (s : S) : prog S :=
+  PRead false cap (fun d => if lenZ d =? 0 then PDone s 0 else PUp d (-1) (PDone s 1)).
+
+(** one call of socket_recv_messages with one message of one [cap]-byte buffer *)
+Definition http_body (cap G : Z) (s : hst) : prog hst :=
+  if h_state s =? HT_CONNECTED then
+    (if 0 <? h_fill s then
+       (* what is left in the ring is handed out before the base socket is read again *)
+       match ring_pop cap s with
+       | None => PFault
+       | Some (data, pos', fill') => PUp data (-1) (PDone (with_ring s HT_CONNECTED pos' fill' (h_cl s)) 1)
+       end
+     else if h_base s then passthrough_cap cap s else PDone s (-1))
   else
     match http_grow G s with
     | None => PFault
@@ -284,13 +301,26 @@ Definition http_body (G : Z) (s : hst) : prog hst :=
            | Some b2 =>
              let fill' := h_fill s + lenZ d in
              if negb (ring_valid L pos fill') then PFault else
-             http_parse (Datatypes.S (Datatypes.S (Datatypes.S (Datatypes.S (Datatypes.S (Z.to_nat fill'))))))
+             http_parse cap (Datatypes.S (Datatypes.S (Datatypes.S (Datatypes.S (Datatypes.S (Z.to_nat fill'))))))
                {| h_state := h_state s; h_base := true; h_queue := h_queue s; h_buf := b2;
                   h_pos := pos; h_fill := fill'; h_cl := h_cl s |}
            end
          end)
      else PDone s0 (-1)
     end.
+
+(** one readable event: the agent's read loop (component_io_cb) calls recv_messages until it would block.
+    The fuel bounds the number of calls: every call but the last consumes a byte of the chunk or pops a byte
+    off the ring, and a call that delivered may be followed by one that finds nothing. *)
+Definition http_fuel (s : hst) (chunk : list Z) : nat :=
+  Datatypes.S (Datatypes.S (4 * (Z.to_nat (h_fill s) + length chunk))).
+Definition http_feed (cap G : Z) (w : wst hst) (chunk : list Z) : wst hst * list ev :=
+  if dead w =? 0 then drainw (http_body cap G) (http_fuel (inner w) chunk) (inner w) chunk false else (w, []).
+Fixpoint http_run (G : Z) (w : wst hst) (cs : list (Z * list Z)) : wst hst * list ev :=
+  match cs with
+  | [] => (w, [])
+  | (cap, c) :: cs' => let '(w1, e1) := http_feed cap G w c in let '(w2, e2) := http_run G w1 cs' in (w2, e1 ++ e2)
+  end.
 
 Definition http_send (s : hst) (reliable : bool) (bufs : list (list Z)) : hst * list ev :=
   if h_state s =? HT_CONNECTED then
